@@ -1,6 +1,7 @@
 package props
 
 import (
+	"bytes"
 	"encoding/json"
 	"fmt"
 	"sort"
@@ -26,6 +27,10 @@ type LossyScenario struct {
 	Model  *refts.Model `json:"model"`
 	Enum   bool         `json:"enum,omitempty"` // enumerate every single duplication and every single deletion
 	Faults []ChanFault  `json:"faults,omitempty"`
+	// header-sequence mode (no Model): a seeded sequence of packet headers over
+	// {PID, counter step in {dup,+1,gap}, PUSI, payload / adaptation-only / TEI /
+	// discontinuity_indicator}, judged against the reassembly reference.
+	Hdrs []HdrPkt `json:"hdrs,omitempty"`
 }
 
 type lossy struct{}
@@ -38,15 +43,15 @@ func (lossy) Runs(tier string) int64 {
 	if tier == "thorough" {
 		return 300000
 	}
-	return 1500
+	return 4000
 }
 
 func (lossy) Meta() core.EngineMeta {
 	return core.EngineMeta{
-		Rule:       "Reference-multiplexed streams (as C02; some with PES payloads made of PES-start-code patterns at packet strides) go through the PacketChannel. Even run indices enumerate EVERY single-packet duplication and EVERY single-packet deletion position of their stream (exhaustive per stream); odd indices apply a seeded multi-fault plan (loss bursts < 16 per PID, duplicates of first/middle/last packets, duplicates delayed behind other PIDs' packets, dup+loss). The fault-free run of the same stream is the baseline. evaluations = faulted executions; distinct = abstract fingerprint (fault kind, unit kind, position class first/middle/last/single, packets-per-unit class, cc-wrap, interleaved, outcome class); non-trivial = the fault hit a packet of a unit (always).",
+		Rule:       "Reference-multiplexed streams (as C02; some with PES payloads made of PES-start-code patterns at packet strides) go through the PacketChannel. A quarter of the runs are header sequences: seeded packet sequences over {PID, counter step in dup/+1/gap, PUSI, payload / adaptation-only / transport-error / discontinuity_indicator} with uniquely tagged payloads, judged against the spec-level reassembly reference (DESIGN App. B: must-deliver / may-be-missing / must-not-appear). Of the rest, even run indices enumerate EVERY single-packet duplication and EVERY single-packet deletion position of their stream (exhaustive per stream); odd indices apply a seeded multi-fault plan (loss bursts < 16 per PID, duplicates of first/middle/last packets, duplicates delayed behind other PIDs' packets, dup+loss). The fault-free run of the same stream is the baseline. evaluations = faulted executions; distinct = abstract fingerprint (fault kind, unit kind, position class first/middle/last/single, packets-per-unit class, cc-wrap, interleaved, outcome class); non-trivial = the fault hit a packet of a unit (always).",
 		Real:       []string{"astits.Demuxer and everything below it"},
 		Stub:       []string{"refts reference multiplexer", "PacketChannel (drop / duplicate)", "SimReader (fault-free)", "spec-level bookkeeping of which unit each packet belongs to"},
-		FaultKinds: []string{"dup", "drop", "dup-delayed", "drop-burst", "dup-first", "dup-last", "dup-single-packet-unit", "drop-pusi", "biased-payload"},
+		FaultKinds: []string{"hdr-dup", "hdr-gap", "hdr-disc", "hdr-afonly", "hdr-tei", "hdr-orphan", "dup", "drop", "dup-delayed", "drop-burst", "dup-first", "dup-last", "dup-single-packet-unit", "drop-pusi", "biased-payload"},
 		Assumptions: []string{
 			"a duplicate is a byte-identical copy following the original before any other packet of its PID",
 			"losses: at most 14 consecutive packets of a PID (15 make the next counter equal the last one seen = a duplicate by definition) and at least one later payload packet of that PID survives (otherwise the counter cannot reveal the gap); PMT PIDs count as affected when PID 0 is",
@@ -63,6 +68,9 @@ func (lossy) Decode(raw json.RawMessage) (any, error) {
 }
 
 func (lossy) Generate(r *core.PRNG, tier string, idx int64) any {
+	if idx%4 == 3 {
+		return &LossyScenario{Hdrs: genHeaders(r)}
+	}
 	cfg := genStreamCfg(r)
 	cfg.Straddle = false
 	cfg.UnitsMin, cfg.UnitsMax = 2, r.Range(2, 4)
@@ -214,6 +222,12 @@ func (lossy) Execute(scAny any, keepLog bool) *core.Outcome {
 	sc := scAny.(*LossyScenario)
 	out := core.NewOutcome()
 	out.Log = core.NewLog(keepLog)
+	if sc.Model == nil {
+		if len(sc.Hdrs) > 0 {
+			judgeHeaders(out, sc.Hdrs)
+		}
+		return out
+	}
 	b, err := sc.Model.Build()
 	if err != nil || len(b.Packets) == 0 {
 		out.Probe("model-unbuildable")
@@ -506,6 +520,24 @@ func (lossy) Shrink(scAny any) []any {
 	if sc.Enum {
 		return nil
 	}
+	if sc.Model == nil {
+		for n := len(sc.Hdrs) / 2; n >= 1; n /= 2 {
+			for a := 0; a+n <= len(sc.Hdrs); a += n {
+				c := append(append([]HdrPkt{}, sc.Hdrs[:a]...), sc.Hdrs[a+n:]...)
+				if len(c) > 0 {
+					out = append(out, &LossyScenario{Hdrs: c})
+				}
+			}
+		}
+		for i, h := range sc.Hdrs {
+			if h.Kind != "payload" || h.CC != "+1" {
+				c := append([]HdrPkt{}, sc.Hdrs...)
+				c[i].Kind, c[i].CC = "payload", "+1"
+				out = append(out, &LossyScenario{Hdrs: c})
+			}
+		}
+		return out
+	}
 	for i := range sc.Faults {
 		c := *sc
 		c.Faults = append(append([]ChanFault{}, sc.Faults[:i]...), sc.Faults[i+1:]...)
@@ -571,4 +603,249 @@ func (lossy) Shrink(scAny any) []any {
 		}
 	}
 	return out
+}
+
+// ---- header-sequence mode: random packet-header sequences judged by the reassembly model ----
+
+// HdrPkt is one packet of a header-sequence scenario.
+type HdrPkt struct {
+	S    int    `json:"s"`             // PID index 0..2
+	CC   string `json:"cc"`            // "+1" | "dup" | "gap"
+	Gap  int    `json:"gap,omitempty"` // gap: counter advance (2..15)
+	PUSI bool   `json:"pusi,omitempty"`
+	Kind string `json:"kind"` // payload | afonly | tei | disc
+}
+
+var hdrPIDs = []uint16{0x100, 0x101, 0x1abc}
+
+func genHeaders(r *core.PRNG) []HdrPkt {
+	n := r.Range(4, 60)
+	np := r.Range(1, 3)
+	var out []HdrPkt
+	for i := 0; i < n; i++ {
+		h := HdrPkt{S: r.Intn(np), CC: "+1", Kind: "payload"}
+		switch r.Pick(12, 3, 3) {
+		case 1:
+			h.CC = "dup"
+		case 2:
+			h.CC, h.Gap = "gap", r.Range(2, 15)
+		}
+		h.PUSI = r.Chance(1, 3)
+		switch r.Pick(14, 2, 2, 1) {
+		case 1:
+			h.Kind = "afonly"
+		case 2:
+			h.Kind = "tei"
+		case 3:
+			h.Kind = "disc"
+		}
+		out = append(out, h)
+	}
+	return out
+}
+
+// hdrUnit is a unit the reference reassembly model expects.
+type hdrUnit struct {
+	data    []byte
+	mayMiss bool
+}
+
+// buildHeaders renders the packets and runs the reassembly reference (DESIGN Appendix B).
+func buildHeaders(hs []HdrPkt) (pk [][]byte, want map[uint16][]hdrUnit, stats map[string]int) {
+	want = map[uint16][]hdrUnit{}
+	stats = map[string]int{}
+	type st struct {
+		cc       int // counter of the last visible packet, -1 none
+		last     []byte
+		cur      []byte // unit being assembled (payload after the PES header), nil none
+		curValid bool
+	}
+	sts := map[int]*st{}
+	pesHdr := []byte{0, 0, 1, 0xe0, 0, 0, 0x80, 0, 0}
+	for gi, h := range hs {
+		if h.S < 0 || h.S >= len(hdrPIDs) {
+			continue
+		}
+		s := sts[h.S]
+		if s == nil {
+			s = &st{cc: -1}
+			sts[h.S] = s
+		}
+		pid := hdrPIDs[h.S]
+		switch h.Kind {
+		case "afonly":
+			cc := s.cc
+			if cc < 0 {
+				cc = 0
+			}
+			raw, _ := refts.EncodePacket(&refts.Pkt{PID: pid, AFC: 2, CC: uint8(cc), AF: refts.StuffAF(&refts.AF{RAI: true}, 184)})
+			pk = append(pk, raw)
+			stats["afonly"]++
+			continue
+		case "tei":
+			raw := make([]byte, 188)
+			for i := range raw {
+				raw[i] = PayloadByte(7000+gi, i)
+			}
+			raw[0], raw[1], raw[2], raw[3] = 0x47, 0x80|byte(pid>>8&0x1f), byte(pid), 0x10|byte(gi&0xf)
+			pk = append(pk, raw)
+			stats["tei"]++
+			continue
+		}
+		// visible packet
+		if h.CC == "dup" && s.cc >= 0 && s.last != nil {
+			pk = append(pk, s.last)
+			stats["dup"]++
+			continue // ignored by the model
+		}
+		gap := false
+		cc := 0
+		switch {
+		case s.cc < 0:
+			cc = gi & 0xf
+		case h.CC == "gap":
+			g := h.Gap
+			if g < 2 || g > 15 {
+				g = 2
+			}
+			cc = (s.cc + g) & 0xf
+			gap = true
+			stats["gap"]++
+		default:
+			cc = (s.cc + 1) & 0xf
+		}
+		p := &refts.Pkt{PID: pid, PUSI: h.PUSI, AFC: 1, CC: uint8(cc)}
+		body := make([]byte, 0, 184)
+		if h.PUSI {
+			body = append(body, pesHdr...)
+		}
+		size := 184
+		if h.Kind == "disc" {
+			p.AFC = 3
+			p.AF = &refts.AF{Disc: true}
+			size = 184 - 2
+			if s.cc >= 0 {
+				gap = true
+			}
+			stats["disc"]++
+		}
+		for len(body) < size {
+			body = append(body, PayloadByte(1000+gi, len(body)))
+		}
+		p.Payload = body
+		raw, err := refts.EncodePacket(p)
+		if err != nil {
+			continue
+		}
+		pk = append(pk, raw)
+		s.cc, s.last = cc, raw
+		// reassembly reference
+		if gap {
+			if h.PUSI && s.cur != nil && s.curValid {
+				// the completed unit may or may not survive a gap seen on the next unit start
+				want[pid] = append(want[pid], hdrUnit{data: s.cur, mayMiss: true})
+			}
+			s.cur, s.curValid = nil, false
+			stats["abandon"]++
+		}
+		if h.PUSI {
+			if s.cur != nil && s.curValid {
+				want[pid] = append(want[pid], hdrUnit{data: s.cur})
+			}
+			s.cur = append([]byte{}, body[len(pesHdr):]...)
+			s.curValid = true
+		} else if s.cur != nil && s.curValid {
+			s.cur = append(s.cur, body...)
+		} else {
+			stats["orphan"]++
+		}
+	}
+	for si, s := range sts {
+		if s.cur != nil && s.curValid {
+			want[hdrPIDs[si]] = append(want[hdrPIDs[si]], hdrUnit{data: s.cur})
+		}
+	}
+	return
+}
+
+func judgeHeaders(out *core.Outcome, hs []HdrPkt) {
+	out.Evals++
+	pk, want, stats := buildHeaders(hs)
+	if len(pk) == 0 {
+		return
+	}
+	for k, v := range stats {
+		if v > 0 {
+			out.Fire("hdr-" + k)
+		}
+	}
+	out.Packets += int64(len(pk))
+	res, _ := DemuxData(refts.Join(pk), DemuxCfg{PacketSize: 188, Reader: world.ReaderPlan{Kind: "seekable"}}, out.Log, len(pk)*2+16)
+	got := map[uint16][][]byte{}
+	for _, r := range res {
+		if r.D != nil && r.D.PES != nil {
+			got[r.D.PID] = append(got[r.D.PID], r.D.PES.Data)
+		} else if r.D != nil {
+			out.Violate("C06", "hdrseq-foreign", "non-pes", "PID %#x delivered a %s from a stream of PES packets", r.D.PID, dataKind(r.D))
+		}
+	}
+	for _, pid := range hdrPIDs {
+		w, g := want[pid], got[pid]
+		j := 0
+		for k, d := range g {
+			found := -1
+			for x := j; x < len(w); x++ {
+				if bytes.Equal(w[x].data, d) {
+					found = x
+					break
+				}
+			}
+			if found < 0 {
+				cls, sig := "hdrseq-foreign", "unknown"
+				// is it a splice (prefix of one unit followed by other bytes) or a truncated unit?
+				for _, u := range w {
+					n := commonPrefix(u.data, d)
+					if n >= 175 && n < len(d) {
+						cls, sig = "hdrseq-splice", "across-gap"
+					} else if n == len(d) && n > 0 {
+						cls, sig = "hdrseq-truncated", "prefix-of-unit"
+					}
+				}
+				out.Violate("C06", cls, sig, "PID %#x: delivered datum %d (%d bytes) is not a unit of the reassembly reference (sequence %s)", pid, k, len(d), core.Short(fmt.Sprint(hs), 400))
+				break
+			}
+			for x := j; x < found; x++ {
+				if !w[x].mayMiss {
+					out.Violate("C06", "hdrseq-unit-lost", "", "PID %#x: unit %d of the reassembly reference (%d bytes) was not delivered although no gap touches it", pid, x, len(w[x].data))
+				}
+			}
+			j = found + 1
+		}
+		for x := j; x < len(w); x++ {
+			if !w[x].mayMiss {
+				out.Violate("C06", "hdrseq-unit-lost", "tail", "PID %#x: unit %d of the reassembly reference (%d bytes) was not delivered although no gap touches it", pid, x, len(w[x].data))
+			}
+		}
+	}
+	fp := ""
+	for _, h := range hs {
+		if h.Kind != "payload" || h.CC != "+1" {
+			fp += h.Kind[:1] + h.CC[:1]
+			if h.PUSI {
+				fp += "P"
+			}
+		}
+	}
+	if len(fp) > 24 {
+		fp = fp[:24]
+	}
+	out.FP("H" + fp)
+}
+
+func commonPrefix(a, b []byte) int {
+	n := 0
+	for n < len(a) && n < len(b) && a[n] == b[n] {
+		n++
+	}
+	return n
 }
